@@ -216,7 +216,7 @@ func TestCacheHistories(t *testing.T) {
 	w := newNDWriter(t, out)
 	defer w.Close()
 	var clock atomic.Int64
-	base := time.Unix(1_700_000_000, 0)
+	base := time.Unix(1_700_000_000, 600_000_000) // not aligned to whole seconds: lifetimes are exact, not rounded
 	restore := ech.VerifSetClock(func() time.Time { return base.Add(time.Duration(clock.Load()) * time.Second) })
 	defer restore()
 	z := &cacheZone{}
@@ -261,7 +261,7 @@ func TestCacheConcurrent(t *testing.T) {
 	w := newNDWriter(t, out)
 	defer w.Close()
 	var clock atomic.Int64
-	base := time.Unix(1_700_000_000, 0)
+	base := time.Unix(1_700_000_000, 600_000_000) // not aligned to whole seconds: lifetimes are exact, not rounded
 	restore := ech.VerifSetClock(func() time.Time { return base.Add(time.Duration(clock.Load()) * time.Second) })
 	defer restore()
 	r := rand.New(rand.NewSource(seed()))
@@ -373,7 +373,7 @@ func TestCacheParked(t *testing.T) {
 	w := newNDWriter(t, out)
 	defer w.Close()
 	var clock atomic.Int64
-	base := time.Unix(1_700_000_000, 0)
+	base := time.Unix(1_700_000_000, 600_000_000) // not aligned to whole seconds: lifetimes are exact, not rounded
 	var parkNext atomic.Bool
 	parked := make(chan struct{}, 1)
 	release := make(chan struct{})
